@@ -1,9 +1,10 @@
-"""mir_eval.melody frame metrics, validation, `freq_to_voicing`, `constant_hop_timebase` -> lean/MirGen/Melody.lean  (AST
+"""mir_eval.melody frame metrics, validation, `freq_to_voicing`, `constant_hop_timebase`, the glue of `evaluate` -> lean/MirGen/Melody.lean  (AST
 based; mir_eval is never imported).  Translator part `melody` (C04 / C09 / C01).
 
 One SHALLOW Lean definition per translated function, `Mir.Gen.melody.<function>`, over the run-time library
 `lean/MirModel/PyMel.lean` (`Mir.PyMel`, + `Mir.PyM.divNp` / `Mir.PyS.divF`), plus a driver handler
-(`Mir.Gen.Melody.handler`, protocol op `gen.melody <"function"> <args...>`).  `MirProofs/Props/C04_GenMelody.lean`
+(`Mir.Gen.Melody.handler`, protocol op `gen.melody <"function"> <args...>`; `gen.melody "?"` lists the translated functions, so
+that suite `gen_melody` asks only for those: a function that left the subset is a translator problem, not a disagreement).  `MirProofs/Props/C04_GenMelody.lean`
 proves every one of them equal to the hand-written model (`MirModel/Melody.lean`) for ALL inputs, so the melody theorems of
 C04 / C09 / C01 / C07 are re-checked against what the source says *now* on every run.
 
@@ -35,8 +36,15 @@ ADDED SUBSET
                NumPy scalars that may be nan / inf (`Segment.Num`): `+ - * /` (IEEE, `PyMel.nadd` ..), `np.floor(x)`,
                `int(x)` (ValueError on nan, OverflowError on inf), `np.round(x, 10)` of a finite float;
                `np.linspace(<float>, <float>, <int>)`.
+               `**kwargs` is accepted when its only use is `util.filter_kwargs(<f>, <positional args>, **kwargs)`: it is
+               read as one optional parameter per defaulted parameter of those callees beyond the positional arguments and
+               `util.filter_kwargs(f, *a, **kw)` as `f(*a, **{k: v for k in kw if f has a parameter k})`;
+               `d = collections.OrderedDict()`, `d[<string literal>] = <score>` (each key at most once: an append), `return d`;
+               EXTERN (bound to the hand model, `PyMel.to_cent_voicing`): `util.filter_kwargs(to_cent_voicing, ...)` — the
+               source's signature of `to_cent_voicing` must be exactly TCV_PARAMS / TCV_DEFAULTS below; `base_frequency`
+               is the unit of the log domain and has no counterpart.
   NOT TRANSLATED (stay hand model + correspondence): `hz2cents` (a `log2`: the hand model works in the cent domain),
-               `resample_melody_series`, `to_cent_voicing`, `evaluate`.
+               `resample_melody_series`, `to_cent_voicing`.
 
 `python harness/translate/melody.py [repo]` prints the generated file.
 """
@@ -60,12 +68,15 @@ from translate.segindex import (Unsupported, E, NAT, INT, RAT, NUM, BOOL, NONE, 
 
 # functions of mir_eval/melody.py, in emission order; REQUIRED: one that leaves the subset is a translator problem
 WANTED = ["validate_voicing", "validate", "voicing_recall", "voicing_false_alarm", "voicing_measures",
-          "raw_pitch_accuracy", "raw_chroma_accuracy", "overall_accuracy", "freq_to_voicing", "constant_hop_timebase"]
+          "raw_pitch_accuracy", "raw_chroma_accuracy", "overall_accuracy", "freq_to_voicing", "constant_hop_timebase",
+          "evaluate"]
 
 FVEC = VEC(RAT)                 # a 1-D float array
 BMASK = MASK("vec")             # a 1-D boolean array
 FREQ = ("freq",)                # a frequency in Hz, in the log domain (Melody.Freq)
 FREQS = VEC(FREQ)
+KIND = ("kind",)                # the interpolation kind of the extern to_cent_voicing (Melody.Kind)
+DICT = ("dict",)                # an OrderedDict with string-literal keys and score values: List (String × Num), in insertion order
 
 # the element kind of the `np.ndarray` parameters, per function, in order (numpydoc says `np.ndarray` for all of them)
 ARRAY_PARAMS = {
@@ -78,7 +89,14 @@ ARRAY_PARAMS = {
     "raw_chroma_accuracy": [FVEC, FVEC, FVEC, FVEC],
     "overall_accuracy": [FVEC, FVEC, FVEC, FVEC],
     "freq_to_voicing": [FREQS, OPT(FVEC)],
+    "evaluate": [FVEC, FREQS, FVEC, FREQS, OPT(FVEC), OPT(FVEC)],
 }
+
+# the extern `to_cent_voicing` (NOT translated: bound to the hand model, MirModel/PyMel.lean): its parameter names and
+# defaults must be exactly these, else the functions that call it leave the subset.  `base_frequency` is the unit of the
+# log domain and has no counterpart in the model.
+TCV_PARAMS = ["ref_time", "ref_freq", "est_time", "est_freq", "est_voicing", "ref_reward", "base_frequency", "hop", "kind"]
+TCV_DEFAULTS = [None, None, 10.0, None, "linear"]
 
 EXC = {"ValueError": "valueError", "IndexError": "indexError", "TypeError": "typeError", "KeyError": "keyError",
        "ZeroDivisionError": "zeroDivision"}
@@ -90,6 +108,10 @@ _mp_lean_type = MP.lean_type
 def lean_type(t):
     if t == FREQ:
         return "Mir.Melody.Freq"
+    if t == KIND:
+        return "Mir.Melody.Kind"
+    if t == DICT:
+        return "(List (String × Mir.Segment.Num))"
     return _mp_lean_type(t)
 
 
@@ -133,6 +155,24 @@ def param_type(fname, text, node, np_kinds, default_none):
 
 
 class Module(MP.Module):
+    def extern_sig(self, fname, node):
+        """the signature of the extern `to_cent_voicing`, after checking that the source still has it"""
+        if fname != "to_cent_voicing":
+            raise Unsupported("no extern %s" % fname, node)
+        defs = self.funcs.get(fname)
+        if not defs or len(defs) != 1 or fname in self.assigned:
+            raise Unsupported("%s is not a single top-level function" % fname, node)
+        a = defs[0].args
+        if a.vararg or a.kwarg or a.kwonlyargs or a.posonlyargs or [p.arg for p in a.args] != TCV_PARAMS \
+                or [getattr(d, "value", Ellipsis) for d in a.defaults] != TCV_DEFAULTS \
+                or not all(isinstance(d, ast.Constant) for d in a.defaults):
+            raise Unsupported("the signature of the extern %s changed" % fname, node)
+        none = const_expr(ast.Constant(value=None))
+        params = [("ref_time", FVEC, None), ("ref_freq", FREQS, None), ("est_time", FVEC, None), ("est_freq", FREQS, None),
+                  ("est_voicing", OPT(FVEC), none), ("ref_reward", OPT(FVEC), none), ("hop", OPT(RAT), none),
+                  ("kind", KIND, E("Mir.Melody.Kind.linear", KIND))]
+        return Sig(fname, params, TUP([FVEC, FVEC, FVEC, FVEC]))
+
     def translate(self, fname, node=None):
         if fname in self.sigs:
             return self.sigs[fname]
@@ -189,8 +229,77 @@ class Body(MP.Body):
         if isinstance(s, ast.For) and isinstance(s.iter, (ast.List, ast.Tuple)):
             return self.stmts(self.unroll(s, env) + list(rest), env, k)
         if isinstance(s, ast.Assign) and len(s.targets) == 1 and isinstance(s.targets[0], ast.Subscript):
+            t = s.targets[0]
+            if isinstance(t.value, ast.Name) and t.value.id in env and env[t.value.id][0] == DICT:
+                return self.dict_store(s, env, cont)
             return self.mask_store(s, env, cont)
         return MP.Body.stmts(self, sts, env, k)
+
+    def dict_store(self, s, env, cont):
+        """`d[<string literal>] = <score>` on an OrderedDict created by this function; a key is stored at most once, so the
+        store is an append (insertion order = source order)"""
+        t = s.targets[0]
+        x = t.value.id
+        key = t.slice
+        if not (isinstance(key, ast.Constant) and isinstance(key.value, str)) or '"' in key.value or "\\" in key.value:
+            raise Unsupported("a dict key that is not a plain string literal", s)
+        keys = self.dict_keys.setdefault(x, set())
+        if key.value in keys:
+            raise Unsupported("dict key %r is stored twice" % key.value, s)
+        keys.add(key.value)
+        binds = []
+        v = self.expr(s.value, env, binds)
+        if v.ty not in NUMERIC:
+            raise Unsupported("a dict value of type %s" % show_type(v.ty), s)
+        line = "let %s : %s := (%s ++ [(\"%s\", %s)])" % (ident(x), lean_type(DICT), ident(x), key.value, coerce(v, NUM, s))
+        return self.bind_lines(binds) + [line] + cont(dict(env))
+
+    def translate(self):
+        self.dict_keys = {}
+        # (MP.Body.translate runs the body twice — typing pass, emission pass — so the key sets are reset by `assign`)
+        return MP.Body.translate(self)
+
+    def assign(self, target, value, env, cont, node):
+        if isinstance(target, ast.Name) and isinstance(value, ast.Call) and dotted(value.func) == "collections.OrderedDict":
+            self.dict_keys[target.id] = set()
+        return MP.Body.assign(self, target, value, env, cont, node)
+
+    def filter_kwargs(self, node, env, binds):
+        args = node.args
+        if not args or not isinstance(args[0], ast.Name) or args[0].id in self.locals:
+            raise Unsupported("util.filter_kwargs whose first argument is not a function of this module", node)
+        star = [k for k in node.keywords if k.arg is None]
+        if len(star) != 1 or len(node.keywords) != 1 or not (isinstance(star[0].value, ast.Name)
+                                                              and star[0].value.id == self.kwarg_name()):
+            raise Unsupported("util.filter_kwargs with anything but exactly the **kwargs of the enclosing function", node)
+        callee = args[0].id
+        extern = callee == "to_cent_voicing"
+        sig = self.m.extern_sig(callee, node) if extern else self.m.translate(callee, node)
+        pos = args[1:]
+        if len(pos) > len(sig.params):
+            raise Unsupported("too many arguments for %s" % sig.name, node)
+        terms = []
+        for i, (pn, pt, pd) in enumerate(sig.params):
+            if i < len(pos):
+                e = self.expr(pos[i], env, binds)
+                if pt[0] == "opt" and e.ty == pt[1]:
+                    terms.append("(some %s)" % e.term)
+                elif pt[0] == "opt" and e.ty == NONE:
+                    terms.append("none")
+                else:
+                    terms.append(coerce(e, pt, node))
+            elif pd is None:
+                raise Unsupported("missing argument %s of %s" % (pn, sig.name), node)
+            elif pn in self.kwparams:
+                want = pt if pt[0] == "opt" else OPT(pt)
+                if env.get(pn, (None,))[0] != want:
+                    raise Unsupported("keyword parameter %s of %s has another type here" % (pn, sig.name), node)
+                terms.append(ident(pn) if pt[0] == "opt" else "(Option.getD %s %s)" % (ident(pn), self.default_term(pd, pt)))
+            else:
+                terms.append(self.default_term(pd, pt))
+        fn = "Mir.PyMel.to_cent_voicing" if extern else self.callee(sig)
+        tmp = self.bind(binds, "%s %s" % (fn, " ".join(terms)), sig.ret, node)
+        return E(tmp, sig.ret, np=(not extern and sig.ret_np))
 
     def raise_stmt(self, s):
         x = s.exc
@@ -429,6 +538,13 @@ class Body(MP.Body):
             tmp = self.bind(binds, "Mir.PyMel.linspace %s %s %s" % (coerce(a, RAT, node), coerce(b, RAT, node),
                                                                     coerce(n, INT, node)), FVEC, node)
             return E(tmp, FVEC)
+        if name == "collections.OrderedDict" and not args and nokw:
+            if self.m.imports.get("collections") != "collections" or "collections" in self.m.assigned \
+                    or "collections" in self.m.funcs or "collections" in self.locals:
+                raise Unsupported("`collections` is not the module collections", node)
+            return E("([] : %s)" % lean_type(DICT), DICT)
+        if name == "util.filter_kwargs":
+            return self.filter_kwargs(node, env, binds)
         if name is not None and name.split(".")[0] in ("np", "scipy", "util", "warnings", "collections"):
             raise Unsupported("call of %s" % name, node)
         return MP.Body.call(self, node, env, binds)           # len, float, ...
@@ -442,8 +558,8 @@ def translate_def(module, fn):
     if fn.decorator_list:
         raise Unsupported("decorated function", fn)
     a = fn.args
-    if a.vararg or a.kwarg or a.kwonlyargs or a.posonlyargs:
-        raise Unsupported("*args / **kwargs / keyword-only parameters", fn)
+    if a.vararg or a.kwonlyargs or a.posonlyargs:
+        raise Unsupported("*args / keyword-only parameters", fn)
     doc = doc_param_types(fn)
     np_kinds = list(ARRAY_PARAMS.get(fn.name, []))
     params = []
@@ -464,7 +580,47 @@ def translate_def(module, fn):
     body = [s for s in fn.body
             if not (isinstance(s, ast.Expr) and isinstance(s.value, ast.Constant) and isinstance(s.value.value, str))]
     where = "`melody.%s` (mir_eval/melody.py)" % fn.name
-    return Body(module, fn, fn.name, params, body, what=where).translate()
+    kwp = []
+    if a.kwarg:
+        kwp = kwargs_params(module, fn)
+        local = set(assigned_names(body)) | {n for n, _, _ in params}
+        for n, _, _ in kwp:
+            if n in local:
+                raise Unsupported("keyword %s of **%s collides with a local" % (n, a.kwarg.arg), fn)
+        where += "; **%s is read as the optional keyword(s) %s of the functions reached through util.filter_kwargs" % (
+            a.kwarg.arg, ", ".join(n for n, _, _ in kwp))
+        if "to_cent_voicing" in {c.args[0].id for c in ast.walk(fn) if isinstance(c, ast.Call)
+                                 and dotted(c.func) == "util.filter_kwargs" and c.args and isinstance(c.args[0], ast.Name)}:
+            where += " (`base_frequency` is the unit of the log domain: no parameter)"
+    return Body(module, fn, fn.name, params + kwp, body, what=where, kwparams=[n for n, _, _ in kwp]).translate()
+
+
+def kwargs_params(module, fn):
+    """the optional parameters `**kwargs` stands for: the defaulted parameters of the functions reached through
+    util.filter_kwargs beyond the positional arguments given there -> [(name, OPT type, None-default E)]"""
+    kw = fn.args.kwarg.arg
+    uses = [nd for nd in ast.walk(fn) if isinstance(nd, ast.Name) and nd.id == kw]
+    calls = [nd for nd in ast.walk(fn) if isinstance(nd, ast.Call) and dotted(nd.func) == "util.filter_kwargs"]
+    starred = [k.value for c in calls for k in c.keywords if k.arg is None]
+    if len(uses) != len(starred) or any(u not in starred for u in uses):
+        raise Unsupported("**%s is used other than as util.filter_kwargs(f, ..., **%s)" % (kw, kw), fn)
+    out = []
+    for c in calls:
+        if not c.args or not isinstance(c.args[0], ast.Name):
+            raise Unsupported("util.filter_kwargs whose first argument is not a plain function name", c)
+        callee = c.args[0].id
+        sig = module.extern_sig(callee, c) if callee == "to_cent_voicing" else module.translate(callee, c)
+        for pn, pt, pd in sig.params[len(c.args) - 1:]:
+            if pd is None:
+                continue
+            want = pt if pt[0] == "opt" else OPT(pt)
+            prev = [t for n, t in out if n == pn]
+            if prev:
+                if prev[0] != want:
+                    raise Unsupported("keyword %s has different types in the callees" % pn, fn)
+                continue
+            out.append((pn, want))
+    return [(n, t, const_expr(ast.Constant(value=None))) for n, t in out]
 
 
 # ----------------------------------------------------------------------------------------
@@ -472,7 +628,8 @@ def translate_def(module, fn):
 
 def val_decoder(ty, v, default=None):
     dec = {RAT: "Val.asRat?", NAT: "Val.asNat?", INT: "Val.asInt?", BOOL: "Val.asBool?", FVEC: "Val.asRats?",
-           FREQS: "Mir.Melody.asFreqs?", OPT(FVEC): "Mir.Melody.asOptRats?", OPT(RAT): "Val.asOptRat?"}.get(ty)
+           FREQS: "Mir.Melody.asFreqs?", OPT(FVEC): "Mir.Melody.asOptRats?", OPT(RAT): "Val.asOptRat?",
+           OPT(KIND): "Mir.PyMel.asOptKind?"}.get(ty)
     if dec is None:
         raise Unsupported("no protocol decoder for %s" % show_type(ty))
     if default is not None and ty[0] != "opt":
@@ -485,6 +642,8 @@ def val_encoder(ty):
         return "Val.ofRats"
     if ty == FREQS:
         return "Mir.Melody.ofFreqs"
+    if ty == DICT:
+        return "Mir.PyMel.ofScores"
     if ty[0] == "tup":
         n = len(ty[1])
         vs = ["x%d" % i for i in range(n)]
@@ -552,6 +711,7 @@ def translate_all(repo, wanted=None):
     L.append("/-- protocol op `gen.melody <\"function\"> <args...>` (a defaulted parameter may be sent as `none`) -/")
     L.append("def handler : Handler := fun fn args =>")
     L.append("  match fn, args with")
+    L.append("  | \"gen.melody\", [Val.str \"?\"] => some (.ok (Val.list (names.map Val.str)))     -- which functions were translated")
     L += rows
     L.append("  | _, _ => none")
     L.append("")
